@@ -405,7 +405,8 @@ var rkAllowed = map[string][]string{
 
 // rkExempt: receivers whose kind is established elsewhere, with the obligation that establishes it.
 var rkExempt = map[string]string{
-	"F:callConfig.this": "callConfig.this is stored only by Call, from caller.Type(), and the options run only through Kind() == Func (obligations WR/PATH callConfig.this)",
+	"F:notifierSubscriber.target": "a subscriber's target is stored only from valueOfNotifierTarget's result, which returns only for a channel (obligations PATH/valueOfNotifierTarget, PROV/(*Notifier).SubscribeContext)",
+	"F:callConfig.this":           "callConfig.this is stored only by Call, from caller.Type(), and the options run only through Kind() == Func (obligations WR/PATH callConfig.this)",
 }
 
 func reflectKinds(c *Ctx, inFile string) {
@@ -830,7 +831,7 @@ func reflectKinds(c *Ctx, inFile string) {
 		}
 	}
 	// premise of the callConfig.this exemption
-	if q := c.F("Call"); q.ok() {
+	if q := c.F("Call"); inFile == "callable.go" && q.ok() {
 		okw := true
 		for _, fn := range P.Funcs {
 			for _, st := range an.FieldStores(fn, "callConfig.this") {
@@ -868,7 +869,9 @@ func reflectKinds(c *Ctx, inFile string) {
 		q.add("PATH", "options and the invocation run only for a callable of kind Func", okk, pickS(okk, "option(config) and caller.Call are reached only through config.this.Kind() == reflect.Func", "Call proceeds with a callable type that is not a func (the options and resolveArgs would panic in reflect)"))
 		q.add("WR", "callConfig.this is the callable's type, set only by Call", okw && ksrc, pickS(okw && ksrc, "one store, in Call, of caller.Type()", "callConfig.this is written elsewhere or not from caller.Type()"))
 	}
-	c.C.Add("RK", "callable.go", "kind-restricted reflect calls found", n >= 12, fmt.Sprintf("%d calls checked", n))
+	if inFile == "callable.go" {
+		c.C.Add("RK", "callable.go", "kind-restricted reflect calls found", n >= 12, fmt.Sprintf("%d calls checked", n))
+	}
 }
 
 func valueParent(v ssa.Value) *ssa.Function {
